@@ -29,6 +29,7 @@ import Kust.PathDisk
 import Kust.Kv
 import Kust.Subset
 import Kust.RefVar
+import Kust.PathSplit
 import Kust.Gen.Lists
 import Kust.Gen.FieldSpecs
 import Kust.Gen.Lists
@@ -607,6 +608,11 @@ def runMatch (op : String) (a : Json) : Except String Json := do
       (Match.pathMatch (MatchJ.hit ns) ns create path doc)
   | _ => throw s!"unknown match op {op}"
 
+def runPathSplit (a : Json) : Except String Json := do
+  let dc := ((jS a "d").toList.head?).getD '/'
+  let r := if jS a "mode" == "split" then PathSplit.split dc (jS a "path") else PathSplit.smarter dc (jS a "path")
+  return Json.mkObj [("ok", Json.arr (r.map Json.str).toArray)]
+
 def runRefVar (a : Json) : Except String Json := do
   let kj := a.getObjValD "known"
   let mapping : String → String := fun k => match kj.getObjVal? k with
@@ -688,6 +694,7 @@ def dispatch (comp : String) (args : Json) : Except String Json :=
   | ["openapi", op] => runOpenApi op args
   | ["fieldspec", op] => runFieldSpec op args
   | ["path", "disk"] => runPathDisk args
+  | ["path", "split"] => runPathSplit args
   | ["path", op] => runPath op args
   | ["kio", op] => runKio op args
   | ["fix", op] => runFix op args
